@@ -1,1 +1,61 @@
-// access to private items of the parent module (compiled only under --cfg rustdds_verif)
+// access to private items of structure/dds_cache.rs
+use super::*;
+
+impl TopicCache {
+  /// Canonical text of everything handlers read; timestamps as `@ticks@`
+  /// tokens (ranked later by `wire::rank_timestamps`).
+  pub(crate) fn verif_digest(&self) -> String {
+    let ch: Vec<String> = self
+      .changes
+      .iter()
+      .map(|(t, cc)| {
+        format!(
+          "@{}@:{:?}#{}:{}",
+          t.to_ticks(),
+          cc.writer_guid.prefix,
+          i64::from(cc.sequence_number),
+          crate::verif::common::md5_hex(&format!("{:?}{:?}", cc.data_value, cc.write_options))
+        )
+      })
+      .collect();
+    let sn: Vec<String> = self
+      .sequence_numbers
+      .iter()
+      .map(|(g, m)| {
+        format!(
+          "{:?}:{:?}",
+          g.prefix,
+          m.iter()
+            .map(|(s, t)| format!("{}=@{}@", i64::from(*s), t.to_ticks()))
+            .collect::<Vec<_>>()
+        )
+      })
+      .collect();
+    let rb: Vec<String> = self
+      .received_reliably_before
+      .iter()
+      .map(|(g, s)| format!("{:?}<{}", g.prefix, i64::from(*s)))
+      .collect();
+    format!(
+      "TC ch{ch:?} sn{sn:?} rb{rb:?} keep={:?}/{}",
+      self.min_keep_samples, self.max_keep_samples
+    )
+  }
+  pub(crate) fn verif_len(&self) -> usize {
+    self.changes.len()
+  }
+  /// (writer, sn, payload bytes incl. encapsulation header) of every change held, in key order
+  pub(crate) fn verif_all(&self) -> Vec<(GUID, i64, Vec<u8>)> {
+    self
+      .changes
+      .values()
+      .map(|cc| {
+        (
+          cc.writer_guid,
+          i64::from(cc.sequence_number),
+          cc.data_value.bytes_slice(0, usize::MAX).to_vec(),
+        )
+      })
+      .collect()
+  }
+}
